@@ -189,6 +189,7 @@ ObsNewFail(e) ==
   /\ UNCHANGED <<msize, mpage, mmod, pos, mused, tot, unk, wr>>
   /\ bad' = IF e.ret # 0 /\ e.maps # <<>> THEN "C11/mapping-left/failed-new"
             ELSE IF e.ret # 0 /\ e.fds # 0 THEN "C11/mapping-left/failed-new-fd"
+            ELSE IF e.ret # 0 /\ e.file # 0 THEN "C11/mapping-left/failed-new-file"
             ELSE ""
 
 Obs(e) ==
